@@ -150,11 +150,37 @@ def split_top(s, sep=","):
     return parts
 
 
-def match_arms(body, scrutinee_re, what):
-    """Arms `pat => expr` of the unique `match <scrutinee> {` in body."""
-    m = unique(r"\bmatch\s+" + scrutinee_re + r"\s*\{", body, f"match in {what}")
-    end = match_close(body, m.end() - 1)
-    inner = body[m.end():end]
+def find_matches(body):
+    """All `match <expr> {` blocks of body: (scrutinee text, inner text, start, end)."""
+    out = []
+    for m in re.finditer(r"\bmatch\b", body):
+        # the scrutinee runs up to the first `{` at bracket depth 0
+        i, depth = m.end(), 0
+        while i < len(body):
+            c = body[i]
+            if c == '"':
+                i += 1
+                while i < len(body) and body[i] != '"':
+                    i += 2 if body[i] == "\\" else 1
+            elif c in "([":
+                depth += 1
+            elif c in ")]":
+                depth -= 1
+            elif c == "{" and depth == 0:
+                break
+            elif c == ";":
+                i = -1
+                break
+            i += 1
+        if i < 0 or i >= len(body):
+            continue
+        end = match_close(body, i)
+        out.append((" ".join(body[m.end():i].split()), body[i + 1:end], m.start(), end))
+    return out
+
+
+def arms_of(inner, what):
+    """Arms `pat => expr` of the inside of a match block."""
     arms = []
     # arms are separated by top-level commas; a block arm `=> { ... }` may omit the comma
     i, n = 0, len(inner)
@@ -195,64 +221,197 @@ def match_arms(body, scrutinee_re, what):
     return arms
 
 
+def the_match(body, what, arm_pattern_re):
+    """Arms of the unique match in body whose arm patterns (all but `_`) look like arm_pattern_re.
+    The scrutinee's spelling and the name of the matched variable do not matter."""
+    found = []
+    for scrut, inner, _, _ in find_matches(body):
+        try_arms = arms_of(inner, what)
+        pats = [p for p, _ in try_arms if p != "_"]
+        if pats and all(re.fullmatch(arm_pattern_re, q.strip()) for p in pats for q in p.split("|")):
+            found.append(try_arms)
+    if len(found) != 1:
+        die(f"expected exactly one table match in {what}, found {len(found)}")
+    return found[0]
+
+
+def params_of(sig):
+    """[(pattern text, type text)] of a fn signature text `fn name<..>(a: A, b: B) -> R where ..`."""
+    i = sig.index("(")
+    j = match_close(sig, i, "(", ")")
+    out = []
+    for part in split_top_angle(sig[i + 1:j]):
+        part = part.strip()
+        if not part:
+            continue
+        k = top_colon(part)
+        if k < 0:
+            out.append((part, ""))
+        else:
+            out.append((part[:k].strip(), " ".join(part[k + 1:].split())))
+    return out
+
+
+def top_colon(part):
+    depth = 0
+    for k, c in enumerate(part):
+        if c in "(<[":
+            depth += 1
+        elif c in ")>]":
+            depth -= 1
+        elif c == ":" and depth == 0 and part[k:k + 2] != "::" and (k == 0 or part[k - 1] != ":"):
+            return k
+    return -1
+
+
+def split_top_angle(s):
+    """split on commas at depth 0 of () [] {} <> (for parameter lists; `->` is not a bracket)"""
+    parts, depth, cur = [], 0, []
+    for k, c in enumerate(s):
+        if c in "([{<":
+            depth += 1
+        elif c in ")]}":
+            depth -= 1
+        elif c == ">" and (k == 0 or s[k - 1] != "-"):
+            depth -= 1
+        if c == "," and depth == 0:
+            parts.append("".join(cur))
+            cur = []
+        else:
+            cur.append(c)
+    parts.append("".join(cur))
+    return parts
+
+
+def all_fns(src):
+    return sorted(set(re.findall(r"\bfn\s+([A-Za-z_]\w*)\s*(?:<|\()", src)))
+
+
+def inlined(src, name, stack=()):
+    """Body of the unique `fn name` with every call of a free function / `self.` / `Self::` function that
+    is defined ONCE in the same file replaced by `{ /*call:callee*/ (args) ; <its body, inlined> }`: a
+    marker scan sees the same effects in the same order whether or not a block lives in a private helper."""
+    body, _ = fn_body(src, name)
+    if len(stack) > 4:
+        return body
+    single = {f for f in all_fns(src) if len(re.findall(r"\bfn\s+" + f + r"\s*(?:<|\()", src)) == 1}
+    names = single - {name} - set(stack)
+    pat = re.compile(r"(?:\bself\s*\.\s*|\bSelf::\s*|(?<![\w.:]))([A-Za-z_]\w*)\s*(?:::<[^>()]*>)?\(")
+    out, i = [], 0
+    while True:
+        m = pat.search(body, i)
+        if not m:
+            out.append(body[i:])
+            break
+        callee = m.group(1)
+        if callee not in names or re.search(r"\bfn\s*$", body[:m.start()]):
+            out.append(body[i:m.end()])
+            i = m.end()
+            continue
+        j = match_close(body, m.end() - 1, "(", ")")
+        out.append(body[i:m.start()] + "{ /*call:" + callee + "*/ (" + body[m.end():j] + ") ; " + inlined(src, callee, stack + (name,)) + " }")
+        i = j + 1
+    return "".join(out)
+
+
+def uses(name, text):
+    return bool(name) and re.search(r"(?<![\w.])" + re.escape(name) + r"\b", text) is not None
+
+
 def parse_table(src, ty):
     body, _ = fn_body(impl_block(src, ty), "parse")
-    arms = match_arms(body, r"method", f"{ty}::parse")
+    arms = the_match(body, f"{ty}::parse", r'"[^"\\]*"')
     rows, saw_default = [], False
     for pat, expr in arms:
         if pat == "_":
-            if not re.fullmatch(r"return\s+None", expr):
-                die(f"{ty}::parse: default arm is not `return None`: {expr!r}")
+            if not re.fullmatch(r"(return\s+)?None", expr):
+                die(f"{ty}::parse: default arm does not answer None: {expr!r}")
             saw_default = True
             continue
-        pm = re.fullmatch(r'"([^"\\]*)"', pat)
-        if not pm:
-            die(f"{ty}::parse: arm pattern is not a plain string literal: {pat!r}")
-        em = re.fullmatch(r"\(\s*Self::(\w+)\s*,\s*(?:MethodEffect::)?(Read|Mutating)\s*\)", expr)
+        em = re.fullmatch(r"(?:Some\s*\(\s*)?\(\s*(?:Self|" + ty + r")::(\w+)\s*,\s*(?:MethodEffect::)?(Read|Mutating)\s*,?\s*\)(?:\s*\))?", expr)
         if not em:
             die(f"{ty}::parse: arm {pat} is not `(Self::Variant, Read|Mutating)`: {expr!r}")
-        rows.append((pm.group(1), em.group(1), em.group(2)))
+        for q in pat.split("|"):
+            rows.append((q.strip().strip('"'), em.group(1), em.group(2)))
     if not saw_default:
-        die(f"{ty}::parse: no `_ => return None` arm")
+        die(f"{ty}::parse: no default arm answering None")
     return rows
 
 
-IDENT_USE = lambda name, text: re.search(r"(?<![\w.])" + name + r"\b", text) is not None
+def roles_of(sig, fn):
+    """Role of each parameter of a dispatcher / handler by its TYPE (names are free to change)."""
+    by_type = [("AppState", "state"), ("Principal", "principal"), ("Encoding", "enc"), ("RootMethod", "method"),
+               ("DbMethod", "method"), ("RpcParams", "params"), ("str", "db_name"), ("String", "db_name")]
+    roles = {}
+    for pat, ty in params_of(sig):
+        name = re.sub(r"^(mut\s+|&\s*)", "", pat).strip()
+        for t, role in by_type:
+            if re.search(r"(?<!\w)" + t + r"(?!\w)", ty):
+                if role in roles:
+                    die(f"{fn}: two parameters of role {role}")
+                roles[role] = name
+                break
+    return roles
+
+
+def reduce_handler(inner, roles, fn, pat):
+    """`root::create(state, params.decode()?).await?` -> `root::create`; `db.metadata().collections` ->
+    `db.metadata.collections`; a leading local is replaced by its role (`state.`, `db.`)."""
+    handler, k = [], 0
+    while k < len(inner):
+        if inner[k] == "(":
+            k = match_close(inner, k, "(", ")") + 1
+        else:
+            handler.append(inner[k])
+            k += 1
+    handler = re.sub(r"\s+", "", "".join(handler)).replace(".await", "").replace("?", "")
+    if not re.fullmatch(r"[\w:.]+", handler):
+        die(f"{fn}: cannot reduce the handler expression of {pat}: {inner!r}")
+    m = re.match(r"(\w+)\.", handler)
+    if m:
+        for role, name in roles.items():
+            if name == m.group(1):
+                handler = role + handler[len(name):]
+    mode = re.search(r"OpenMode::(\w+)", inner)
+    if mode:
+        handler += f"[{mode.group(1)}]"
+    return handler
 
 
 def dispatch_table(src, fn, ty):
-    body, sig = fn_body(src, fn)
-    arms = match_arms(body, r"method", fn)
+    _, sig = fn_body(src, fn)
+    body = inlined(src, fn)
+    roles = roles_of(sig, fn)
+    for need in ("state", "enc", "method", "params"):
+        if need not in roles:
+            die(f"{fn}: no parameter of role {need}")
+    # the database handle: `let <db> = <state>.get_db(<arg>).await?` before the table
+    lookup_role = ""
+    gm = re.findall(r"let\s+(\w+)\s*=\s*" + re.escape(roles["state"]) + r"\s*\.\s*get_db\s*\(\s*&?\s*(\w+)\s*\)\s*\.\s*await\s*\?", body)
+    if len(gm) > 1:
+        die(f"{fn}: more than one get_db lookup")
+    if gm:
+        roles["db"] = gm[0][0]
+        lookup_role = next((r for r, n in roles.items() if n == gm[0][1] and r != "db"), "other:" + gm[0][1])
+    arms = the_match(body, fn, ty + r"::\w+")
     rows = []
     for pat, expr in arms:
-        pm = re.fullmatch(ty + r"::(\w+)", pat)
-        if not pm:
-            die(f"{fn}: arm pattern is not `{ty}::Variant`: {pat!r}")
-        em = re.fullmatch(r"enc\s*\.\s*reply\s*\(\s*&(.*)\)", expr)
-        if not em:
-            die(f"{fn}: arm {pat} is not `enc.reply(&...)`: {expr!r}")
-        inner = em.group(1).strip()
-        # handler = the expression with argument lists, `.await` and `?` removed:
-        #   root::create(state, params.decode()?).await?  ->  root::create
-        #   db.metadata().collections                      ->  db.metadata.collections
-        handler, k = [], 0
-        while k < len(inner):
-            if inner[k] == "(":
-                k = match_close(inner, k, "(", ")") + 1
-            else:
-                handler.append(inner[k])
-                k += 1
-        handler = re.sub(r"\s+", "", "".join(handler)).replace(".await", "").replace("?", "")
-        if not re.fullmatch(r"[\w:.]+", handler):
-            die(f"{fn}: cannot reduce the handler expression of {pat}: {inner!r}")
-        mode = re.search(r"OpenMode::(\w+)", inner)
-        if mode:
-            handler += f"[{mode.group(1)}]"
-        rows.append((pm.group(1), handler,
-                     IDENT_USE("principal", inner), IDENT_USE("state", inner),
-                     IDENT_USE("db", inner), IDENT_USE("db_name", inner), IDENT_USE("params", inner)))
-    pre = body[:body.index("match")]
-    return rows, pre, sig
+        rm = re.search(re.escape(roles["enc"]) + r"\s*\.\s*reply\s*\(", expr)
+        if not rm:
+            die(f"{fn}: arm {pat} does not answer through `{roles['enc']}.reply(..)`: {expr[:80]!r}")
+        end = match_close(expr, rm.end() - 1, "(", ")")
+        inner = expr[rm.end():end].strip().lstrip("&").strip()
+        # `let x = <expr>; enc.reply(&x)`: look through one temporary
+        if re.fullmatch(r"\w+", inner):
+            lm = re.findall(r"let\s+" + inner + r"\s*(?::[^=;]+)?=\s*([^;]+);", expr)
+            if len(lm) == 1:
+                inner = lm[0].strip()
+        handler = reduce_handler(inner, roles, fn, pat)
+        for q in pat.split("|"):
+            rows.append((q.strip().split("::")[-1], handler,
+                         uses(roles.get("principal"), expr), uses(roles["state"], expr),
+                         uses(roles.get("db"), expr), uses(roles.get("db_name"), expr), uses(roles["params"], expr)))
+    return rows, lookup_role, roles
 
 
 def lean_str(s):
@@ -261,6 +420,48 @@ def lean_str(s):
 
 def lean_bool(b):
     return "true" if b else "false"
+
+
+def resolve_local(name, body, depth=3):
+    """follow `let name = other.clone();` / `let name = &other;` / `let name = other;` chains"""
+    for _ in range(depth):
+        lm = re.findall(r"let\s+" + re.escape(name) + r"\s*(?::[^=;]+)?=\s*&?\s*(\w+)\s*(?:\.\s*(?:clone|to_owned|to_string)\s*\(\s*\))?\s*;", body)
+        if len(lm) != 1:
+            break
+        name = lm[0]
+    return name
+
+
+def branch_texts(ebody, what):
+    """{effect: text} of the two branches that `execute_rpc` takes by the method's effect, whether it is
+    spelled `if e == MethodEffect::X {..} else {..}`, `if e != ..` or `match e { MethodEffect::X => .. }`."""
+    other = {"Read": "Mutating", "Mutating": "Read"}
+    im = list(re.finditer(r"\bif\s+[\w.]+\s*(==|!=)\s*MethodEffect::(\w+)\s*\{", ebody))
+    im += list(re.finditer(r"\bif\s+matches!\s*\(\s*[\w.]+\s*(,)\s*MethodEffect::(\w+)\s*\)\s*\{", ebody))
+    if len(im) == 1:
+        m = im[0]
+        then_end = match_close(ebody, m.end() - 1)
+        em = re.match(r"\s*else\s*\{", ebody[then_end + 1:])
+        if not em:
+            die(f"{what}: no else branch after the effect test")
+        es = then_end + 1 + em.end() - 1
+        then_b, else_b = ebody[m.end():then_end], ebody[es + 1:match_close(ebody, es)]
+        eff = m.group(2) if m.group(1) != "!=" else other.get(m.group(2), "?")
+        if eff not in other:
+            die(f"{what}: unknown effect {eff}")
+        return {eff: then_b, other[eff]: else_b}
+    found = []
+    for scrut, inner, _, _ in find_matches(ebody):
+        arms = arms_of(inner, what)
+        pats = [p for p, _ in arms]
+        if pats and all(re.fullmatch(r"MethodEffect::\w+", p) for p in pats):
+            found.append(arms)
+    if len(im) == 0 and len(found) == 1:
+        d = {p.split("::")[1]: e for p, e in found[0]}
+        if sorted(d) != ["Mutating", "Read"]:
+            die(f"{what}: the effect match does not have exactly the arms Read and Mutating")
+        return d
+    die(f"{what}: expected exactly one branch on the method's effect, found {len(im) + len(found)}")
 
 
 def main():
@@ -282,39 +483,45 @@ def main():
         die(f"enum MethodEffect changed: {effects}")
     root_parse = parse_table(mod, "RootMethod")
     db_parse = parse_table(mod, "DbMethod")
-    root_disp, root_pre, root_sig = dispatch_table(mod, "dispatch_root", "RootMethod")
-    db_disp, db_pre, db_sig = dispatch_table(mod, "dispatch_db", "DbMethod")
+    root_disp, root_lookup, root_roles = dispatch_table(mod, "dispatch_root", "RootMethod")
+    db_disp, db_lookup, db_roles = dispatch_table(mod, "dispatch_db", "DbMethod")
     # the order of match arms carries no meaning: emit the tables sorted, so that a pure
     # reordering of arms (or of enum variants) does not change the generated file
     root_parse.sort(); db_parse.sort(); root_disp.sort(); db_disp.sort()
     root_variants.sort(); db_variants.sort()
+    if not db_lookup:
+        die("dispatch_db: no `let <db> = <state>.get_db(<name>).await?` before the table")
+    root_takes_principal = "principal" in root_roles
+    db_takes_principal = "principal" in db_roles
+    disp_roles = {"dispatch_root": root_roles, "dispatch_db": db_roles}
 
-    # dispatch_db resolves the database from the path name before the match
-    gm = re.findall(r"let\s+db\s*=\s*state\s*\.\s*get_db\s*\(\s*(\w+)\s*\)\s*\.\s*await\s*\?", db_pre)
-    if len(gm) != 1:
-        die("dispatch_db: expected exactly one `let db = state.get_db(<name>).await?` before the match")
-    db_lookup_arg = gm[0]
-    root_takes_principal = IDENT_USE("principal", root_sig) or "Principal" in root_sig
-    db_takes_principal = "Principal" in db_sig
-
-    # entry points: scope / parse table / dispatcher / principal forwarding
+    # entry points: scope / parse table / dispatcher / where every dispatcher argument comes from
     wiring = []
     for entry in ("rpc_root", "rpc_db"):
-        body, _ = fn_body(mod, entry)
+        body, sig = fn_body(mod, entry)
+        # the path capture: the parameter destructured as `Path(<x>)`
+        path_var = ""
+        for pat, ty in params_of(sig):
+            pm = re.fullmatch(r"Path\s*\(\s*(?:mut\s+)?(\w+)\s*\)", pat)
+            if pm:
+                path_var = pm.group(1)
         cm = unique(r"\bexecute_rpc\s*\(", body, f"execute_rpc call in {entry}")
         end = match_close(body, cm.end() - 1, "(", ")")
         args = [a.strip() for a in split_top(body[cm.end():end])]
         if len(args) != 7:
             die(f"{entry}: execute_rpc is called with {len(args)} arguments, expected 7")
-        sm = re.fullmatch(r"Scope::(\w+)(?:\(\s*&?\s*(\w+)\s*\))?", args[1])
+        scope_arg = args[1]
+        if re.fullmatch(r"\w+", scope_arg):      # `let scope = Scope::..;` temporary
+            lm = re.findall(r"let\s+" + scope_arg + r"\s*(?::[^=;]+)?=\s*([^;]+);", body)
+            if len(lm) == 1:
+                scope_arg = lm[0].strip()
+        sm = re.fullmatch(r"Scope::(\w+)(?:\(\s*&?\s*(\w+)\s*\))?", scope_arg)
         if not sm:
             die(f"{entry}: scope argument not understood: {args[1]!r}")
-        scope, scope_var = sm.group(1), sm.group(2) or ""
-        if scope_var:
-            # follow one `let scope_var = X.clone();`
-            lm = re.findall(r"let\s+" + scope_var + r"\s*=\s*(\w+)\s*\.\s*clone\s*\(\s*\)", body)
-            if len(lm) == 1:
-                scope_var = lm[0]
+        scope, scope_src = sm.group(1), ""
+        if sm.group(2):
+            v = resolve_local(sm.group(2), body)
+            scope_src = "path" if path_var and v == path_var else "other:" + v
         pm = re.fullmatch(r"(\w+)::parse", args[5])
         if not pm:
             die(f"{entry}: parse argument not understood: {args[5]!r}")
@@ -322,29 +529,55 @@ def main():
         km = re.match(r"(?:move\s*)?\|([^|]*)\|", clos)
         if not km:
             die(f"{entry}: dispatch argument is not a closure")
-        cparams = [x.strip() for x in km.group(1).split(",")]
+        cparams = [re.sub(r":.*", "", x).strip() for x in km.group(1).split(",")]
         if len(cparams) != 5:
             die(f"{entry}: dispatch closure takes {len(cparams)} parameters, expected 5")
         dm = list(re.finditer(r"\b(dispatch_\w+)\s*\(", clos))
         if len(dm) != 1:
             die(f"{entry}: expected exactly one dispatch_* call in the closure")
+        dname = dm[0].group(1)
+        if dname not in disp_roles:
+            die(f"{entry}: unknown dispatcher {dname}")
         dend = match_close(clos, dm[0].end() - 1, "(", ")")
-        dargs = [re.sub(r"[&\s]", "", a) for a in split_top(clos[dm[0].end():dend])]
-        pvar = cparams[4]
-        forwards = (not pvar.startswith("_")) and pvar in dargs
-        name_arg = ""
-        for a in dargs:
-            if a in ("db_name", scope_var) and a not in (cparams[0], cparams[1], cparams[2], cparams[3], pvar):
-                name_arg = a
-        wiring.append((entry, scope, scope_var, pm.group(1), dm[0].group(1), forwards, name_arg))
+        dargs = [re.sub(r"\.\s*clone\s*\(\s*\)", "", re.sub(r"[&\s]", "", a)) for a in split_top(clos[dm[0].end():dend])]
+        _, dsig = fn_body(mod, dname)
+        slots = []
+        for pat, ty in params_of(dsig):
+            nm = re.sub(r"^(mut\s+|&\s*)", "", pat).strip()
+            slots.append(next((r for r, n in disp_roles[dname].items() if n == nm and r != "db"), "other"))
+        if len(slots) != len(dargs):
+            die(f"{entry}: {dname} is called with {len(dargs)} arguments, it takes {len(slots)}")
+        # closure parameters are, by the type of execute_rpc's `F`, (state, enc, method, params, principal)
+        cnames = ["state", "enc", "method", "params", "principal"]
+        src_of = {}
+        for slot, a in zip(slots, dargs):
+            a = resolve_local(a, clos)
+            if a in cparams:
+                src_of[slot] = "closure:" + cnames[cparams.index(a)]
+            elif path_var and resolve_local(a, body) == path_var:
+                src_of[slot] = "path"
+            else:
+                src_of[slot] = "other:" + a
+        for slot in ("state", "enc", "method", "params"):
+            if src_of.get(slot) != "closure:" + slot:
+                die(f"{entry}: {dname}'s {slot} argument is not the closure's {slot} parameter ({src_of.get(slot)})")
+        forwards = src_of.get("principal") == "closure:principal"
+        name_src = src_of.get("db_name", "")
+        wiring.append((entry, scope, scope_src, pm.group(1), dname, forwards, name_src))
 
-    # execute_rpc: order of the four stages and the cancellation policy per effect
-    ebody, _ = fn_body(mod, "execute_rpc")
+    # execute_rpc (private helpers inlined): order of the four stages, the principal handed on, and the
+    # cancellation policy per effect
+    _, esig = fn_body(mod, "execute_rpc")
+    ebody = inlined(mod, "execute_rpc")
+    eparams = [re.sub(r"^(mut\s+|&\s*)", "", p).strip() for p, _ in params_of(esig)]
+    if len(eparams) != 7:
+        die(f"execute_rpc takes {len(eparams)} parameters, expected 7")
+    p_state, p_scope, _, p_headers, _, p_parse, p_dispatch = eparams
     marks = {
-        "authorize": r"\bstate\s*\.\s*authorize\s*\(",
+        "authorize": r"\b" + p_state + r"\s*\.\s*authorize\s*\(",
         "parse_body": r"\bRpcRequest::parse\s*\(",
-        "parse_method": r"\bparse_method\s*\(",
-        "dispatch": r"\bdispatch\s*\(",
+        "parse_method": r"\b" + p_parse + r"\s*\(",
+        "dispatch": r"\b" + p_dispatch + r"\s*\(",
     }
     pos = {}
     for k, pat in marks.items():
@@ -352,63 +585,78 @@ def main():
         if not ms:
             die(f"execute_rpc: marker {k} not found")
         pos[k] = ms[0].start()
-    pm_ = re.findall(r"let\s+(\w+)\s*=\s*state\s*\.\s*authorize\s*\(\s*scope\s*,\s*bearer_token\s*\(\s*headers\s*\)\s*\)\s*\?", ebody)
-    if len(pm_) != 1:
-        die("execute_rpc: exactly one `let <p> = state.authorize(scope, bearer_token(headers))?` expected")
-    pvar_ = pm_[0]
+    am = list(re.finditer(r"let\s+(\w+)\s*=\s*" + p_state + r"\s*\.\s*authorize\s*\(", ebody))
+    if len(am) != 1:
+        die("execute_rpc: exactly one `let <p> = state.authorize(..)?` expected")
+    aend = match_close(ebody, am[0].end() - 1, "(", ")")
+    def e_through(arg):
+        arg = arg.strip()
+        if re.fullmatch(r"&?\s*\w+", arg):
+            nm = arg.lstrip("&").strip()
+            lm = re.findall(r"let\s+" + nm + r"\s*(?::[^=;]+)?=\s*([^;]+);", ebody)
+            if len(lm) == 1:
+                return lm[0].strip()
+            return nm
+        return arg
+    aargs = [e_through(a) for a in split_top(ebody[am[0].end():aend])]
+    if len(aargs) != 2 or aargs[0] != p_scope or not re.search(r"\bbearer_token\b", aargs[1]) or not uses(p_headers, aargs[1]):
+        die("execute_rpc: authorize is not called with (scope, bearer_token(headers))")
+    if not re.match(r"\s*\?", ebody[aend + 1:]):
+        die("execute_rpc: the result of authorize is not propagated with `?`")
+    pvar_ = am[0].group(1)
     # the principal handed to every `dispatch(...)` call must be the one `authorize` returned
-    dcalls = list(re.finditer(r"\bdispatch\s*\(", ebody))
-    if not dcalls:
-        die("execute_rpc: no dispatch(...) call")
     exec_forwards = True
-    for dc in dcalls:
+    for dc in re.finditer(marks["dispatch"], ebody):
         dend_ = match_close(ebody, dc.end() - 1, "(", ")")
         dargs_ = [a.strip() for a in split_top(ebody[dc.end():dend_])]
-        if len(dargs_) != 5 or dargs_[4] != pvar_:
+        if len(dargs_) != 5 or resolve_local(dargs_[4], ebody) != pvar_:
             exec_forwards = False
     exec_order = [k for k, _ in sorted(pos.items(), key=lambda kv: kv[1])]
-    im = unique(r"\bif\s+effect\s*==\s*MethodEffect::(\w+)\s*\{", ebody, "`if effect == MethodEffect::X` in execute_rpc")
-    then_end = match_close(ebody, im.end() - 1)
-    then_b = ebody[im.end():then_end]
-    em = re.match(r"\s*else\s*\{", ebody[then_end + 1:])
-    if not em:
-        die("execute_rpc: no else branch after the effect test")
-    else_start = then_end + 1 + em.end() - 1
-    else_b = ebody[else_start + 1:match_close(ebody, else_start)]
+    branches = branch_texts(ebody, "execute_rpc")
 
     def policy(b):
         out = []
         for k, pat in (("spawn_mutation", r"\bspawn_mutation\s*\("), ("admit_read", r"\badmit_read\s*\("),
-                       ("cancel_select", r"\bcancel\s*\.\s*cancelled\s*\("), ("dispatch", r"\bdispatch\s*\(")):
+                       ("cancel_select", r"\.\s*cancelled\s*\(\s*\)"), ("dispatch", marks["dispatch"])):
             if re.search(pat, b):
                 out.append(k)
         return out
-    tested, then_p, else_p = im.group(1), policy(then_b), policy(else_b)
-    pol = {tested: then_p, ("Read" if tested == "Mutating" else "Mutating"): else_p}
+    pol = {k: policy(v) for k, v in branches.items()}
 
-    # require_auth: what is let through without a check, what is checked
-    rbody, _ = fn_body(mod, "require_auth")
+    # require_auth (helpers inlined): what is let through without a check, what is checked
+    _, rsig = fn_body(mod, "require_auth")
+    rbody = inlined(mod, "require_auth")
     ra = []
-    if re.search(r"req\s*\.\s*method\s*\(\s*\)\s*!=\s*Method::POST", rbody):
+    if re.search(r"\.\s*method\s*\(\s*\)\s*(!=|==)\s*Method::POST", rbody):
         ra.append("skip_non_post")
-    if re.search(r"let\s+Ok\s*\(\s*params\s*\)\s*=\s*params\s+else", rbody):
-        ra.append("skip_bad_path_params")
-    if re.search(r"state\s*\.\s*authorize\s*\(\s*scope_from_params\s*\(\s*&params\s*\)\s*,\s*bearer_token\s*\(\s*req\s*\.\s*headers\s*\(\s*\)\s*\)\s*\)", rbody):
+    ams = list(re.finditer(r"\.\s*authorize\s*\(", rbody))
+    if len(ams) != 1:
+        die("require_auth: exactly one authorize call expected")
+    rend = match_close(rbody, ams[0].end() - 1, "(", ")")
+    rargs = [a.strip() for a in split_top(rbody[ams[0].end():rend])]
+
+    def through(arg):
+        if re.fullmatch(r"\w+", arg):
+            lm = re.findall(r"let\s+" + arg + r"\s*(?::[^=;]+)?=\s*([^;]+);", rbody)
+            if len(lm) == 1:
+                return lm[0]
+        return arg
+    if len(rargs) == 2 and "scope_from_params" in through(rargs[0]) and "bearer_token" in through(rargs[1]):
         ra.append("authorize_scope_from_params")
-    if re.search(r"return\s+err\s*\.\s*respond\s*\(", rbody):
+    if re.search(r"\.\s*respond\s*\(", rbody):
         ra.append("reject_with_error")
     if "authorize_scope_from_params" not in ra or "reject_with_error" not in ra:
         die("require_auth: the authorize-or-reject step was not found")
     sbody, _ = fn_body(mod, "scope_from_params")
-    sm = re.search(r'name\s*==\s*"(\w+)"', sbody)
-    if not sm or "Scope::Database" not in sbody or "Scope::Root" not in sbody:
+    sm = re.findall(r'==\s*"(\w+)"', sbody)
+    if len(sm) != 1 or "Scope::Database" not in sbody or "Scope::Root" not in sbody:
         die("scope_from_params: shape not recognised")
-    scope_capture = sm.group(1)
+    scope_capture = sm[0]
     bbody, _ = fn_body(mod, "bearer_token")
-    bm = re.search(r'strip_prefix\s*\(\s*"([^"]*)"\s*\)', bbody)
-    if not bm or "header::AUTHORIZATION" not in bbody:
+    bm = re.findall(r'strip_prefix\s*\(\s*"([^"]*)"\s*\)', bbody)
+    if len(bm) != 1 or "header::AUTHORIZATION" not in bbody:
         die("bearer_token: shape not recognised")
-    bearer_prefix = bm.group(1)
+    bearer_prefix = bm[0]
 
     # build_router: ordered chain of builder calls
     rb, _ = fn_body(lib, "build_router")
@@ -501,7 +749,7 @@ def main():
     lst("wiring", "Wiring", [f"⟨{lean_str(e)}, {lean_str(s)}, {lean_str(sv)}, {lean_str(p)}, {lean_str(d)}, {lean_bool(f)}, {lean_str(na)}⟩"
                               for e, s, sv, p, d, f, na in wiring])
     w(f"/-- `dispatch_db` resolves its database with `state.get_db(<this variable>)` before the match. -/")
-    w(f"def dbLookupArg : String := {lean_str(db_lookup_arg)}")
+    w(f"def dbLookupArg : String := {lean_str(db_lookup)}")
     w(f"def dispatchRootTakesPrincipal : Bool := {lean_bool(root_takes_principal)}")
     w(f"def dispatchDbTakesPrincipal : Bool := {lean_bool(db_takes_principal)}")
     w("")
